@@ -119,6 +119,7 @@ impl StdRoutingLogic {
                 current_interface_id: ingress_interface_id,
                 forwarding_key,
                 ignore_macs,
+                segment_changed: std::cell::Cell::new(false),
             },
             ingress_interface_id == 0,
         );
@@ -188,6 +189,7 @@ impl StdRoutingLogic {
             interface_link_type_lookup,
             forwarding_key,
             ignore_macs,
+            segment_changed: std::cell::Cell::new(false),
         });
 
         // Check if the path was advanced successfully or if there was an error
@@ -482,6 +484,9 @@ struct StandardValidator<'a, Lookup: Fn(u16) -> Option<AsRoutingInterfaceState>>
     current_interface_id: u16,
     forwarding_key: &'a ForwardingKey,
     ignore_macs: bool,
+    /// Set once a segment change has been validated: the hop field validated afterwards is the
+    /// first one of the next segment, which is not the hop field the packet entered the AS on.
+    segment_changed: std::cell::Cell<bool>,
 }
 impl<'a, Lookup: Fn(u16) -> Option<AsRoutingInterfaceState>> AdvanceValidator
     for StandardValidator<'a, Lookup>
@@ -505,8 +510,12 @@ impl<'a, Lookup: Fn(u16) -> Option<AsRoutingInterfaceState>> AdvanceValidator
         match self.ingress {
             // Checks done on ingress
             true => {
-                if self.current_interface_id != 0
-                    && ingress_interface != 0
+                // A packet received from a neighbour must have entered through the interface
+                // its current hop field names (also when that names none). The first hop field
+                // of the next segment at a segment change is exempt: its ingress side is unused
+                // (zero, or the parent interface on a shortcut).
+                if !self.segment_changed.get()
+                    && self.current_interface_id != 0
                     && ingress_interface != self.current_interface_id
                 {
                     return Err(StandardRoutingError::InvalidIngressInterface {
@@ -635,7 +644,10 @@ impl<'a, Lookup: Fn(u16) -> Option<AsRoutingInterfaceState>> AdvanceValidator
         };
 
         match segment_change_valid {
-            true => Ok(()),
+            true => {
+                self.segment_changed.set(true);
+                Ok(())
+            }
             false => Err(StandardRoutingError::InvalidSegmentChange { hop_index }),
         }
     }
